@@ -139,6 +139,74 @@ theorem System_stack (s : SysState) (r : Request) (img : Bytes) (h : systemDump 
   · exact C06_not_shortened _ _ _ _ (Or.inl hl)
   · exact C06_not_shortened _ _ _ _ (Or.inr (Or.inr hl))
 
+/-- **Sanitized stacks (C12 + C06 + C17, end to end).** With sanitization on, what the image records for such a thread is
+    the sanitization of the target's bytes of the recorded range, taken with the thread's stack pointer and its offset
+    in that range — so the C12 theorems (zeros below the stack pointer, every word kept iff it qualifies and the
+    sentinel otherwise, zero partial tail) speak about the image's bytes. -/
+theorem System_stack_sanitized (s : SysState) (r : Request) (img : Bytes) (h : systemDump s r = .ok img)
+    (hsz : img.length < 2 ^ 32) (k : Nat) (t : TInfo) (hk : s.threads[k]? = some t) (htid : t.tid < 2 ^ 32)
+    (hother : r.crash = none ∨ t.tid ≠ r.blamed)
+    (m : Mapping) (hp : 0 < s.page) (hw : WfMaps s.ms) (hrd : s.mem.allReadable m.start m.size = true)
+    (hf : findMapping s.ms (t.sp - t.sp % s.page) = some m) (hs : mayBeStack (some m) = true) (hsp : t.sp < m.start + m.size)
+    (hsp7 : t.sp + 7 < 2 ^ 64) (hsan : r.cfg.sanitize = true) :
+    ∃ d dt, gatherDump s r = .ok d ∧ d.threads[k]? = some dt ∧
+      ∀ start bytes, dt.stack = some (start, bytes) →
+        start ≤ t.sp ∧ t.sp < start + bytes.length ∧
+        sanitize s.ms (s.mem.bytes start bytes.length) t.sp (t.sp - start) = .ok bytes ∧
+        (Img.ofBytes img).bytes (threadPos d k) bytes.length = some bytes ∧
+        (∀ j, j < min (align8 (t.sp - start)) bytes.length → bytes[j]? = some 0) := by
+  have hhull : HullOk s.ms := fun m hm => ⟨(hw.hull m hm).1, (hw.hull m hm).2.1⟩
+  obtain ⟨d, hd, hi⟩ := systemDump_ok s r img h
+  obtain ⟨hth, _, hn, _⟩ := gatherDump_ok s r d hd
+  obtain ⟨_, _, hget⟩ := E2E_threads _ _ _ _ _ _ _ hth
+  obtain ⟨dt, hdk, hgt⟩ := hget k t hk
+  refine ⟨d, dt, hd, hdk, ?_⟩
+  intro start bytes hst
+  have hoth : (r.crash.map (·.2)) = none ∨ t.tid ≠ r.blamed := by
+    rcases hother with h | h
+    · exact Or.inl (by rw [h]; rfl)
+    · exact Or.inr h
+  obtain ⟨htid', _, _, _, _, hgs⟩ := E2E_other_thread _ _ _ _ _ _ _ t dt hoth hgt
+  rw [hst] at hgs
+  have hm64 := (hw.hull m (findMapping_some hf).1).2.2
+  -- the region
+  obtain ⟨h1, h2, h3, _, h5, _⟩ := E2E_stack_contains_sp ⟨s.ms, s.page, copyFromProcess s.mem⟩ r.cfg s.mem.byte k s.threads.length _ false
+    t.sp t.ip m start bytes hp hhull (copy_reads_exactly_in s.mem s.ms s.page m.start m.size hrd) hf hs hsp (fun _ => ⟨hw, hsp7⟩) hgs
+  -- what was read and how it was turned into the record
+  obtain ⟨v, l, bs, hgi, hrdd, hstart, _, _, hsz'⟩ := gather_inv _ _ _ _ _ _ _ _ start bytes hgs
+  have hsani := hsz' hsan
+  obtain ⟨out', ho', hl'⟩ := C12_len_kept s.ms bs t.sp (t.sp - start) ⟨hw, by omega⟩
+  rw [hsani] at ho'
+  injection ho' with ho'
+  subst ho'
+  -- the raw copy is the target's memory of the recorded range
+  obtain ⟨v', l', hgs', hv1, hv2, hv3, hv4⟩ := C06_mapped s.ms s.page t.sp m hp hhull hf hs hsp
+  simp only at hgi hrdd hstart
+  rw [hgs'] at hgi
+  injection hgi with hgi; injection hgi with e1 e2
+  subst e1; subst e2
+  have hms := (findMapping_some hf).2.1
+  have hwithin := capRegion_within v' l' t.sp (maxStackLen r.cfg.limit (extraLimit r.cfg.limit s.threads.length
+      (32 + 12 * s.numWriters + 4 + 48 * s.threads.length)) k false) m.start (m.start + m.size)
+      (by rcases hv4 with hv | hv <;> omega) (by omega) ⟨hv1, hv2⟩
+      (fun c hc => by
+        obtain ⟨h2048, _⟩ := C06_only_extra_threads_shortened _ _ _ _ _ _ hc
+        omega)
+  have hb := copy_reads_exactly_in s.mem s.ms s.page m.start m.size hrd _ _ _ hwithin.1 hwithin.2 hrdd
+  have hlenbs : bs.length = (capRegion v' l' t.sp (maxStackLen r.cfg.limit (extraLimit r.cfg.limit s.threads.length
+      (32 + 12 * s.numWriters + 4 + 48 * s.threads.length)) k false)).2 := by rw [hb]; simp
+  have hraw : s.mem.bytes start bytes.length = bs := by
+    rw [hl', hlenbs, hstart, hb]
+    simp [TMem.bytes]
+  subst hi
+  obtain ⟨_, _, _, i4, _⟩ := E2E_stack_in_image d k dt start bytes hdk hst hsz (by rw [htid']; exact htid) (by omega)
+  obtain ⟨out2, ho2, hz, _⟩ := C12_zero_regions s.ms bs t.sp (t.sp - start) ⟨hw, by omega⟩
+  rw [hsani] at ho2
+  injection ho2 with ho2
+  subst ho2
+  refine ⟨h1, h2, ?_, i4, fun j hj => hz j (by rw [← hl']; exact hj)⟩
+  rw [hraw]; exact hsani
+
 /-- **The crash context (C05, end to end).** With a crash context whose blamed thread is attached (list position `k`, the
     only thread with that id): the exception stream sits in directory slot 3, names the blamed thread, carries the
     supplied signal number, code and address, and its context location is where the supplied context's bytes are —
